@@ -71,6 +71,24 @@ func (*c01) Corpus() []any {
 		out = append(out, eng.History{Backend: b, Steps: []eng.Step{
 			{Op: mkOp("install", 1, eng.Flags{}, "a")}, {Op: mkOp("upgrade", 2, eng.Flags{MaxHistory: 2}, "a")}, {Op: up3},
 			{Op: cr}, {Op: mkOp("rollback", 0, eng.Flags{Version: 1})}, {Op: mkOp("uninstall", 0, eng.Flags{})}}})
+		// Example C01_prune_gap (Engine/LedgerEx.v gap_history): max-history 1 deletes revision 2 before 3 is created
+		upw := mkOp("upgrade", 2, eng.Flags{}, "a")
+		upw.WaitFail = true
+		out = append(out, eng.History{Backend: b, Steps: []eng.Step{
+			{Op: mkOp("install", 1, eng.Flags{}, "a")}, {Op: upw}, {Op: mkOp("upgrade", 3, eng.Flags{MaxHistory: 1}, "a")}}})
+		// Example C01_nonvacuous (Engine/LedgerEx.v nv_history): failed upgrade, atomic rollback, pruning, crash,
+		// refused upgrade (pending), recovery by rollback, keep-history uninstall, install --replace, purge
+		nv2 := mkOp("upgrade", 2, eng.Flags{}, "a")
+		nv2.WaitFail = true
+		nv3 := mkOp("upgrade", 3, eng.Flags{Atomic: true, MaxHistory: 3}, "a", "b")
+		nv3.KFault = &eng.KFault{Verb: "create", Key: "ConfigMap/b"}
+		nv5 := mkOp("upgrade", 5, eng.Flags{}, "a")
+		nv5.Crash = ipt(2)
+		out = append(out, eng.History{Backend: b, Steps: []eng.Step{
+			{Op: mkOp("install", 1, eng.Flags{}, "a")}, {Op: nv2}, {Op: nv3},
+			{Op: mkOp("upgrade", 4, eng.Flags{MaxHistory: 2}, "a")}, {Op: nv5}, {Op: mkOp("upgrade", 6, eng.Flags{}, "a")},
+			{Op: mkOp("rollback", 0, eng.Flags{Version: 5})}, {Op: mkOp("uninstall", 0, eng.Flags{KeepHistory: true})},
+			{Op: mkOp("install", 7, eng.Flags{Replace: true}, "a")}, {Op: mkOp("uninstall", 0, eng.Flags{})}}})
 	}
 	return out
 }
